@@ -166,6 +166,8 @@ package dkg_proposal_fsm
 //@   ensures[C05.phasekeep] err == nil && old(dkgPhaseOk(m.payload, internal.MasterKeyAwaitConfirmation, internal.MasterKeyConfirmed)) ==> dkgPhaseOk(m.payload, internal.MasterKeyAwaitConfirmation, internal.MasterKeyConfirmed) && !dkgAny(m.payload, internal.MasterKeyConfirmationError)
 //@   ensures[C05.reject,C18.reject] err != nil ==> dkgViewsSame(m)
 //@   ensures[C05.shape] outEvent == "" && response == nil
+// a well-formed announcement of an awaited participant is refused only if it carries a polynomial other than the kept one
+//@   erroronly[C05.accepts] Validate | !isMasterKeyReq(args) || !old(rqMasterKey(args).ParticipantId in dkgQ(m.payload)) || old(dkgQ(m.payload)[rqMasterKey(args).ParticipantId].Status) != internal.MasterKeyAwaitConfirmation || (old(len(dp(m).PubPolyBz)) > 0 && len(rqMasterKey(args).PubPolyBz) > 0 && old(content(dp(m).PubPolyBz)) != old(content(rqMasterKey(args).PubPolyBz)))
 //@   ensures[C05.once,C10.once] err == nil ==> isMasterKeyReq(args) && old(rqMasterKey(args).ParticipantId in dkgQ(m.payload)) && old(dkgQ(m.payload)[rqMasterKey(args).ParticipantId].Status) == internal.MasterKeyAwaitConfirmation && dkgQ(m.payload)[rqMasterKey(args).ParticipantId].Status == internal.MasterKeyConfirmed
 //@   ensures[C05.data,C02.data] err == nil ==> len(rqMasterKey(args).MasterKey) > 0 && content(dkgQ(m.payload)[rqMasterKey(args).ParticipantId].DkgMasterKey) == old(content(rqMasterKey(args).MasterKey)) && fresh(dkgQ(m.payload)[rqMasterKey(args).ParticipantId].DkgMasterKey)
 //@   ensures[C05.keepdata] err == nil ==> dkgQ(m.payload)[rqMasterKey(args).ParticipantId].DkgCommit == old(dkgQ(m.payload)[rqMasterKey(args).ParticipantId].DkgCommit) && dkgQ(m.payload)[rqMasterKey(args).ParticipantId].DkgDeal == old(dkgQ(m.payload)[rqMasterKey(args).ParticipantId].DkgDeal) && dkgQ(m.payload)[rqMasterKey(args).ParticipantId].DkgResponse == old(dkgQ(m.payload)[rqMasterKey(args).ParticipantId].DkgResponse)
